@@ -70,9 +70,15 @@ static bool bin(int kind, int64_t code, const Line &a, const Line &b, Line &r) {
     return true;
 }
 
+struct DefaultEq {};
+template<typename T, typename Eq> struct ObsOf { using type = tulz::Observable<T, Eq>; };
+template<typename T> struct ObsOf<T, DefaultEq> { using type = tulz::Observable<T>; };
+
 template<typename T, typename Eq>
 struct Runner {
-    using Obs = tulz::Observable<T, Eq>;
+    // DefaultEq = the Observable's own default template argument (not spelled out here, so that a change of the default is seen)
+    using Obs = typename ObsOf<T, Eq>::type;
+    using OracleEq = std::conditional_t<std::is_same_v<Eq, DefaultEq>, std::equal_to<T>, Eq>;
     using Sub = typename Obs::Subject_t::Subscription_t;
     int kind;
     std::unique_ptr<Obs> obs;
@@ -89,7 +95,7 @@ struct Runner {
         if (!Codec<T>::ok(v0)) { emit({PRE}); return; }
         obs = std::make_unique<Obs>(Codec<T>::dec(v0));
         emit({});
-        Eq eq{};
+        OracleEq eq{};
         for (size_t i = 2; i < c.lines.size(); ++i) {
             const Line &l = c.lines[i];
             events.clear();
@@ -125,7 +131,19 @@ struct Runner {
             case 10: {
                 Line v(l.begin() + 1, l.end());
                 if (!Codec<T>::ok(v)) { ok = false; break; }
-                *obs = Codec<T>::dec(v);
+                if constexpr (std::is_same_v<T, int>) {
+                    // the right-hand side may have another type: what counts is the value that would be stored (5.5 stores 5),
+                    // so an assignment that converts to an Eq-equal value notifies nobody
+                    int x = Codec<T>::dec(v);
+                    switch (i % 4) {
+                    case 0: *obs = (double) x + (x >= 0 ? 0.5 : -0.5); break;     // truncates to x
+                    case 1: *obs = (long long) x; break;
+                    default: *obs = x; break;
+                    }
+                } else if constexpr (std::is_same_v<T, std::string>) {
+                    std::string x = Codec<T>::dec(v);
+                    if (i % 3 == 0 && x.find('\0') == std::string::npos) *obs = x.c_str(); else *obs = x;
+                } else *obs = Codec<T>::dec(v);
                 mayNotify = true;
                 break;
             }
@@ -206,9 +224,9 @@ int main() {
         if (c.lines.size() < 2 || c.lines[0].size() != 1) { emit({PRE}); return; }
         emit({});
         switch (c.lines[0][0]) {
-        case 0: { Runner<int, std::equal_to<int>> r; r.run(c); break; }
+        case 0: { Runner<int, DefaultEq> r; r.run(c); break; }
         case 1: { Runner<double, NearEq> r; r.run(c); break; }
-        case 2: { Runner<std::string, std::equal_to<std::string>> r; r.run(c); break; }
+        case 2: { Runner<std::string, DefaultEq> r; r.run(c); break; }
         case 3: { Runner<int, BucketEq> r; r.run(c); break; }
         default: emit({PRE});
         }
